@@ -658,6 +658,7 @@ func checkC17(c *Ctx, rt *rapid.T) {
 		// enough history for git's automatic maintenance thresholds (100 commits
 		// without a commit-graph, ...): nothing git-sizer runs may trip them
 		n := g.Int(100, 180, "chainlen")
+		manyRefs := g.Bool("chainrefs") && !refConflicts(refSet(w), "refs/tags/chain")
 		prev := ""
 		for i := 0; i < n; i++ {
 			cs := CommitSpec{Tree: EmptyTreeID, Author: ident("A", int64(1200000000+i), "+0000"), Committer: ident("C", int64(1200000000+i), "+0000"), Message: fmt.Sprintf("chain %d\n", i)}
@@ -665,6 +666,10 @@ func checkC17(c *Ctx, rt *rapid.T) {
 				cs.Parents = []string{prev}
 			}
 			prev = w.Add(NewObject(KCommit, EncodeCommit(cs))).ID
+			if manyRefs {
+				// a reference on every commit: more roots than any batch or buffer on the way to rev-list holds
+				w.Refs = append(w.Refs, Ref{Name: fmt.Sprintf("refs/tags/chain/%04d", i), OID: prev})
+			}
 		}
 		if !refConflicts(refSet(w), "refs/heads/chain") {
 			w.Refs = append(w.Refs, Ref{Name: "refs/heads/chain", OID: prev})
